@@ -439,8 +439,14 @@ func Drift(verif, repo, id string) []string {
 		return nil
 	}
 	have := modelledFuncs(verif, repo, id)
+	// wave 8: a function whose go2lean translation is tied by a theorem of Props/<id>.lean is
+	// not hashed for this property (see trans.go)
+	exempt := transExempt(verif, repo, id)
 	var changed []string
 	for k, h := range have {
+		if exempt[k] {
+			continue
+		}
 		if w, ok := lock.Funcs[k]; !ok {
 			changed = append(changed, k+" (new)")
 		} else if w != h {
